@@ -185,6 +185,21 @@ func famC13(g *Gen, o *Out, n int, thorough bool) {
 				}
 			}
 		}
+		// a zero-length section in the middle of the payload (sections, or garbage, follow it), read with and
+		// without ZeroLengthSectionAsEOF: with the option the scan and the inspection both end there
+		if ver == 1 && len(bs) > 1 {
+			p := len(arch) - len(sectionOf(bs[len(bs)-1]))
+			for _, fill := range [][]byte{{0}, {0, 0, 0}, {0, 0xff, 0x01}} {
+				m := append(append(append([]byte{}, arch[:p]...), fill...), arch[p:]...)
+				saved := ro.zeroEOF
+				for _, z := range []bool{true, false} {
+					ro.zeroEOF = z
+					emit(m, "zero-section-mid-payload")
+					emit(indexlessV2(m, 0), "zero-section-mid-payload-v2")
+				}
+				ro.zeroEOF = saved
+			}
+		}
 		// a payload with trailing null padding, and (v2) a cut exactly at the payload end
 		if ver == 1 {
 			emit(append(append([]byte{}, arch...), make([]byte, 1+g.pick(4))...), "nullpad")
